@@ -38,8 +38,10 @@ impl<'a> SimdBestFirstVisitor<u32, SimdAabb> for PointVisitor<'a> {
 pub fn exec(func: &str, a: &mut Args) -> String {
     if func.starts_with("composite2_") { return comp2::exec(func, a); }
     if func.starts_with("composite_") { return comp::exec(func, a); }
-    if func.starts_with("lane3_") || func.starts_with("nl3_") { return lanes3::exec(func, a); }
-    if func.starts_with("lane2_") || func.starts_with("nl2_") { return lanes2::exec(func, a); }
+    if func.starts_with("lane3_") || func.starts_with("nl3_") || func.starts_with("dv3_") || func.starts_with("tv3_") || func.starts_with("cp3_") { return lanes3::exec(func, a); }
+    if func.starts_with("lane2_") || func.starts_with("nl2_") || func.starts_with("dv2_") || func.starts_with("tv2_") || func.starts_with("cp2_") { return lanes2::exec(func, a); }
+    if func.starts_with("hf2_") { return hf2::exec(func, a); }
+    if func.starts_with("hf3_") { return hf3::exec(func, a); }
     match func {
         "bf_point" => {
             let (q, cur, _) = c08::replay_cur(a, false);
@@ -77,6 +79,15 @@ pub fn gen(r: &mut Rng, thorough: bool) -> Vec<(String, String)> {
     v.extend(lanes3::gen(r, thorough));
     v.extend(lanes2::gen(r, thorough));
     v.extend(comp::gen_pairs(r, thorough));
+    v.extend(lanes3::gen_dv(r, thorough));
+    v.extend(lanes2::gen_dv(r, thorough));
+    v.extend(hf2::gen(r, thorough));
+    v.extend(lanes3::gen_tv(r, thorough));
+    v.extend(lanes2::gen_tv(r, thorough));
+    v.extend(hf3::gen(r, thorough));
+    // the closest-points visitor has the same lane formula as the distance visitor: same argument families
+    v.extend(lanes3::gen_dv(r, thorough).into_iter().map(|(_, a)| ("cp3_visit".to_string(), a)));
+    v.extend(lanes2::gen_dv(r, thorough).into_iter().map(|(_, a)| ("cp2_visit".to_string(), a)));
     v
 }
 
@@ -764,7 +775,7 @@ pub mod comp2 {
 
     #[derive(Clone)]
     pub enum Sh2 { Ball(f64), Cuboid(Vector<Real>), Capsule(Point<Real>, Point<Real>, f64), Triangle(Point<Real>, Point<Real>, Point<Real>), Segment(Point<Real>, Point<Real>) }
-    fn sh(a: &mut Args) -> Sh2 {
+    pub fn sh(a: &mut Args) -> Sh2 {
         match a.tok() {
             "ball" => Sh2::Ball(a.f()),
             "cuboid" => Sh2::Cuboid(d2::v(a)),
@@ -774,7 +785,7 @@ pub mod comp2 {
             k => panic!("shape kind {}", k),
         }
     }
-    fn hsh(s: &Sh2) -> String {
+    pub fn hsh(s: &Sh2) -> String {
         match s {
             Sh2::Ball(r) => format!("ball {}", hx(*r)),
             Sh2::Cuboid(he) => format!("cuboid {}", d2::hv(he)),
@@ -783,7 +794,7 @@ pub mod comp2 {
             Sh2::Segment(p, q) => format!("segment {} {}", d2::hp(p), d2::hp(q)),
         }
     }
-    fn dynsh(s: &Sh2) -> Box<dyn Shape> {
+    pub fn dynsh(s: &Sh2) -> Box<dyn Shape> {
         match s {
             Sh2::Ball(r) => Box::new(Ball::new(*r)),
             Sh2::Cuboid(he) => Box::new(Cuboid::new(*he)),
@@ -944,12 +955,32 @@ pub mod comp2 {
                         let opts = ShapeCastOptions { max_time_of_impact: max_toi, target_distance: target, stop_at_penetration: stop, compute_impact_geometry_on_penetration: true };
                         let got = match d.cast_shapes(&pos12, &vel12, g1, g2, opts) { Ok(v) => v, Err(_) => return "unsupported ; unsupported".into() };
                         let vel_cx = if first { vel12 } else { -pos12.inverse_transform_vector(&vel12) };
+                        let mut best_part: Option<(f64, Isometry<Real>, Vector<Real>, usize)> = None; let mut pi = 0usize;
                         let bf = minf(ps.iter().filter_map(|(pp, s)| {
                             let r = match pp { Some(pp) => d.cast_shapes(&pp.inv_mul(&pos_cx), &pp.inverse_transform_vector(&vel_cx), &**s, &*gx, opts),
                                                None => d.cast_shapes(&pos_cx, &vel_cx, &**s, &*gx, opts) };
+                            { let (m, v) = match pp { Some(pp) => (pp.inv_mul(&pos_cx), pp.inverse_transform_vector(&vel_cx)), None => (pos_cx, vel_cx) };
+                              if let Ok(Some(h)) = &r { if best_part.map(|b| h.time_of_impact < b.0).unwrap_or(true) { best_part = Some((h.time_of_impact, m, v, pi)); } } }
+                            pi += 1;
                             if std::env::var("VERIF_DBG").is_ok() { eprintln!("part {:?} -> {:?}  (pos_cx {:?} vel_cx {:?} aabb {:?})", s.as_segment(), r, pos_cx, vel_cx, gx.compute_aabb(&pos_cx)); }
                             r.ok().flatten().map(|h| h.time_of_impact) }));
-                        format!("{} ; {} ; lim {}", fo(got.map(|h| h.time_of_impact)), fo(bf), ff(max_toi))
+                        // tie qualifier (as in the 3-D family): the composite misses the earliest part although the part's own cast reports an
+                        // impact - when the boxes of the part and of the moving shape overlap for no more than an instant the impact is a
+                        // GRAZING one (tangential, within rounding) and the conservative box test of the visitor sits on the same knife edge
+                        let mut graze = "";
+                        if let Some((tb, m, v, idx)) = best_part {
+                            if got.map(|h| h.time_of_impact > tb + 1.0e-4 * (1.0 + tb)).unwrap_or(true) {
+                                let (ba, bb) = (ps[idx].1.compute_local_aabb(), gx.compute_aabb(&m));
+                                let (mut tin, mut tout) = (f64::NEG_INFINITY, f64::INFINITY);
+                                for k in 0..2 {
+                                    if v[k] == 0.0 { if bb.maxs[k] < ba.mins[k] || ba.maxs[k] < bb.mins[k] { tout = f64::NEG_INFINITY; } }
+                                    else { let (t1, t2) = ((ba.mins[k] - bb.maxs[k]) / v[k], (ba.maxs[k] - bb.mins[k]) / v[k]);
+                                           tin = tin.max(t1.min(t2)); tout = tout.min(t1.max(t2)); }
+                                }
+                                if tout - tin <= 1.0e-9 * (1.0 + tb.abs()) { graze = " ; graze"; }
+                            }
+                        }
+                        format!("{} ; {} ; lim {}{}", fo(got.map(|h| h.time_of_impact)), fo(bf), ff(max_toi), graze)
                     }
                 }
             }
@@ -1022,7 +1053,7 @@ pub mod comp2 {
         let sc = if lat { Vector::new(*r.pick(&[4.0, 8.0, 16.0]), *r.pick(&[1.0, 2.0])) } else { Vector::new(r.uniform(4.0, 20.0), r.uniform(0.5, 3.0)) };
         Co2::HeightField(hs, sc)
     }
-    fn gen_other(r: &mut Rng, lat: bool) -> Sh2 {
+    pub fn gen_other(r: &mut Rng, lat: bool) -> Sh2 {
         match r.below(6) {
             0 => Sh2::Ball(r.pos_extent(lat).min(3.0)),
             1 => Sh2::Cuboid(Vector::new(*r.pick(&[0.6, 1.5, 3.0, 6.0]), 0.6)),
@@ -1222,7 +1253,11 @@ pub mod lanes3 {
     use crate::util::*;
     use crate::p3::bounding_volume::{Aabb, SimdAabb};
     use crate::p3::math::{SimdBool, SimdReal};
-    use crate::p3::query::{NonlinearRigidMotion, Ray, SimdRay};
+    use crate::p3::query::{NonlinearRigidMotion, Ray, SimdRay, DefaultQueryDispatcher};
+    use crate::p3::query::details::{CompositeShapeAgainstAnyDistanceVisitor, CompositeShapeAgainstShapeClosestPointsVisitor, TOICompositeShapeShapeBestFirstVisitor};
+    use crate::p3::query::ShapeCastOptions;
+    use crate::p3::partitioning::{SimdBestFirstVisitStatus, SimdBestFirstVisitor};
+    use crate::p3::shape::{Ball, Compound, SharedShape};
     use crate::p3::simba::simd::SimdValue;
     use d3::{Isometry, Point, Real, Vector, na};
 
@@ -1248,8 +1283,84 @@ pub mod lanes3 {
                 let r = match k { 0 => m.append_translation(tra), 1 => m.prepend_translation(tra), 2 => m.append(iso), _ => m.prepend(iso) };
                 format!("{} {}", fiso(&r.start), d3::fp(&r.local_center)) }
             "nl3_pos" => { let m = motion(a); let t = a.f(); fiso(&m.position_at_time(t)) }
+            // the REAL CompositeShapeAgainstAnyDistanceVisitor (new + visit on an internal node: data = None)
+            "dv3_visit" => { let _aabb2 = aabb(a); let best = a.f(); let bv = simd(a); let pos12 = d3::iso(a); let s = super::super::c03::sh(a);
+                let g2 = super::super::c03::dynsh(&s);
+                let g1 = Compound::new(vec![(Isometry::identity(), SharedShape::new(Ball::new(0.5)))]);
+                let d = DefaultQueryDispatcher;
+                let mut vis = CompositeShapeAgainstAnyDistanceVisitor::new(&d, &pos12, &g1, &*g2);
+                match vis.visit(best, &bv, None) {
+                    SimdBestFirstVisitStatus::MaybeContinue { weights, mask, .. } =>
+                        format!("{} {}", (0..4).map(|i| ff(weights.extract(i))).collect::<Vec<_>>().join(" "), fmask(mask)),
+                    _ => "exit".into(),
+                } }
+            // the REAL CompositeShapeAgainstShapeClosestPointsVisitor: same lane formula as the distance visitor
+            "cp3_visit" => { let _aabb2 = aabb(a); let best = a.f(); let bv = simd(a); let pos12 = d3::iso(a); let s = super::super::c03::sh(a);
+                let g2 = super::super::c03::dynsh(&s);
+                let g1 = Compound::new(vec![(Isometry::identity(), SharedShape::new(Ball::new(0.5)))]);
+                let d = DefaultQueryDispatcher;
+                let mut vis = CompositeShapeAgainstShapeClosestPointsVisitor::new(&d, &pos12, &g1, &*g2, 1.0);
+                match vis.visit(best, &bv, None) {
+                    SimdBestFirstVisitStatus::MaybeContinue { weights, mask, .. } =>
+                        format!("{} {}", (0..4).map(|i| ff(weights.extract(i))).collect::<Vec<_>>().join(" "), fmask(mask)),
+                    _ => "exit".into(),
+                } }
+            // the REAL TOICompositeShapeShapeBestFirstVisitor (new + visit on an internal node)
+            "tv3_visit" => { let _aabb2 = aabb(a); let vel = d3::v(a); let mt = a.f(); let td = a.f(); let bv = simd(a); let pos12 = d3::iso(a); let s = super::super::c03::sh(a);
+                let g2 = super::super::c03::dynsh(&s);
+                let g1 = Compound::new(vec![(Isometry::identity(), SharedShape::new(Ball::new(0.5)))]);
+                let d = DefaultQueryDispatcher;
+                let opts = ShapeCastOptions { max_time_of_impact: mt, target_distance: td, stop_at_penetration: true, compute_impact_geometry_on_penetration: true };
+                let mut vis = TOICompositeShapeShapeBestFirstVisitor::new(&d, &pos12, &vel, &g1, &*g2, opts);
+                match vis.visit(f64::MAX, &bv, None) {
+                    SimdBestFirstVisitStatus::MaybeContinue { weights, mask, .. } =>
+                        (0..4).map(|i| format!("{} {}", b(mask.extract(i)), ff(weights.extract(i)))).collect::<Vec<_>>().join(" "),
+                    _ => "exit".into(),
+                } }
             _ => "nofn".into(),
         }
+    }
+    /// the lane part of the linear shape-cast visitor (`tv3_visit`): same boxes as `gen_dv`, velocities towards / past / away from
+    /// the lane boxes, hits exactly at max_toi, target distances 0 / 0.25
+    pub fn gen_tv(r: &mut Rng, thorough: bool) -> Vec<(String, String)> {
+        use crate::p3::bounding_volume::BoundingVolume;
+        let mut v = Vec::new();
+        let n = if thorough { 3000 } else { 400 };
+        for it in 0..n {
+            let lat = it % 2 == 0;
+            let s = super::super::c03::gen_shape(r, lat, &[0, 1, 3, 4, 4, 5, 5]);
+            let pos12 = if r.below(4) == 0 { Isometry::identity() } else if lat && r.bool() { Isometry::translation(*r.pick(&[-2.0, 0.5, 3.0]), *r.pick(&[0.0, 1.25]), *r.pick(&[-0.75, 2.0])) } else { d3::gen_iso(r, lat, 10.0) };
+            let g2 = super::super::c03::dynsh(&s);
+            let ab = g2.compute_aabb(&pos12);
+            let xs: Vec<Aabb> = (0..4).map(|_| match r.below(5) { 0 => gen_box(r, lat), 1 => near_box(r, lat, &ab).merged(&gen_box(r, lat)), _ => near_box(r, lat, &ab) }).collect();
+            let x0 = xs[r.below(4) as usize];
+            let to = na::center(&x0.mins, &x0.maxs) - ab.center();
+            let k = r.below(3) as usize;
+            let vel = match r.below(5) { 0 => to * *r.pick(&[0.5, 1.0, 2.0]), 1 => -to, 2 => { let mut d = Vector::zeros(); d[k] = *r.pick(&[1.0, -1.0, 0.5]); d }, 3 => { let mut d = to; d[k] = 0.0; d }, _ => d3::gen_v(r, lat, 2.0) };
+            let mt = *r.pick(&[0.5, 1.0, 2.0, 4.0, 1.0e3]); let td = *r.pick(&[0.0, 0.0, 0.25]);
+            v.push(("tv3_visit".into(), format!("{} {} {} {} {} {} {}", haabb(&ab), d3::hv(&vel), hx(mt), hx(td), xs.iter().map(haabb).collect::<Vec<_>>().join(" "), d3::hiso(&pos12), super::super::c03::hsh(&s))));
+        }
+        v
+    }
+    /// the lane part of the composite distance visitor: other shape with an off-centre box (triangles, segments, capsules built
+    /// from arbitrary points), arbitrary relative pose, lane boxes touching / overlapping / missing the other shape's box by
+    /// lattice amounts, `best` = MAX / the exact weight of a lane (tie: the mask is strict) / small / random
+    pub fn gen_dv(r: &mut Rng, thorough: bool) -> Vec<(String, String)> {
+        use crate::p3::bounding_volume::BoundingVolume;
+        let mut v = Vec::new();
+        let n = if thorough { 3000 } else { 400 };
+        for it in 0..n {
+            let lat = it % 2 == 0;
+            let s = super::super::c03::gen_shape(r, lat, &[0, 1, 3, 4, 4, 5, 5]);
+            let pos12 = if r.below(4) == 0 { Isometry::identity() } else if lat && r.bool() { Isometry::translation(*r.pick(&[-2.0, 0.5, 3.0]), *r.pick(&[0.0, 1.25]), *r.pick(&[-0.75, 2.0])) } else { d3::gen_iso(r, lat, 10.0) };
+            let g2 = super::super::c03::dynsh(&s);
+            let ab = g2.compute_aabb(&pos12);
+            let xs: Vec<Aabb> = (0..4).map(|_| match r.below(5) { 0 => gen_box(r, lat), 1 => near_box(r, lat, &ab).merged(&gen_box(r, lat)), _ => near_box(r, lat, &ab) }).collect();
+            let gap = |x: &Aabb| -> f64 { (0..3).map(|k| { let g = (x.mins[k] - ab.maxs[k]).max(ab.mins[k] - x.maxs[k]).max(0.0); g * g }).sum::<f64>().sqrt() };
+            let best = match r.below(5) { 0 => f64::MAX, 1 => gap(&xs[r.below(4) as usize]), 2 => *r.pick(&[0.0, 0.25, 0.5, 1.0]), 3 => gap(&xs[0]) + *r.pick(&[-0.25, 0.25]), _ => r.uniform(0.0, 5.0) };
+            v.push(("dv3_visit".into(), format!("{} {} {} {} {}", haabb(&ab), hx(best), xs.iter().map(haabb).collect::<Vec<_>>().join(" "), d3::hiso(&pos12), super::super::c03::hsh(&s))));
+        }
+        v
     }
 
     fn gen_box(r: &mut Rng, lat: bool) -> Aabb {
@@ -1313,7 +1424,11 @@ pub mod lanes2 {
     use crate::util::*;
     use crate::p2::bounding_volume::{Aabb, SimdAabb};
     use crate::p2::math::{SimdBool, SimdReal};
-    use crate::p2::query::{NonlinearRigidMotion, Ray, SimdRay};
+    use crate::p2::query::{NonlinearRigidMotion, Ray, SimdRay, DefaultQueryDispatcher};
+    use crate::p2::query::details::{CompositeShapeAgainstAnyDistanceVisitor, CompositeShapeAgainstShapeClosestPointsVisitor, TOICompositeShapeShapeBestFirstVisitor};
+    use crate::p2::query::ShapeCastOptions;
+    use crate::p2::partitioning::{SimdBestFirstVisitStatus, SimdBestFirstVisitor};
+    use crate::p2::shape::{Ball, Compound, SharedShape};
     use crate::p2::simba::simd::SimdValue;
     use d2::{Isometry, Point, Real, Vector, na};
 
@@ -1339,8 +1454,78 @@ pub mod lanes2 {
                 let r = match k { 0 => m.append_translation(tra), 1 => m.prepend_translation(tra), 2 => m.append(iso), _ => m.prepend(iso) };
                 format!("{} {}", fiso(&r.start), d2::fp(&r.local_center)) }
             "nl2_pos" => { let m = motion(a); let t = a.f(); fiso(&m.position_at_time(t)) }
+            "dv2_visit" => { let _aabb2 = aabb(a); let best = a.f(); let bv = simd(a); let pos12 = d2::iso(a); let s = super::comp2::sh(a);
+                let g2 = super::comp2::dynsh(&s);
+                let g1 = Compound::new(vec![(Isometry::identity(), SharedShape::new(Ball::new(0.5)))]);
+                let d = DefaultQueryDispatcher;
+                let mut vis = CompositeShapeAgainstAnyDistanceVisitor::new(&d, &pos12, &g1, &*g2);
+                match vis.visit(best, &bv, None) {
+                    SimdBestFirstVisitStatus::MaybeContinue { weights, mask, .. } =>
+                        format!("{} {}", (0..4).map(|i| ff(weights.extract(i))).collect::<Vec<_>>().join(" "), fmask(mask)),
+                    _ => "exit".into(),
+                } }
+            "cp2_visit" => { let _aabb2 = aabb(a); let best = a.f(); let bv = simd(a); let pos12 = d2::iso(a); let s = super::comp2::sh(a);
+                let g2 = super::comp2::dynsh(&s);
+                let g1 = Compound::new(vec![(Isometry::identity(), SharedShape::new(Ball::new(0.5)))]);
+                let d = DefaultQueryDispatcher;
+                let mut vis = CompositeShapeAgainstShapeClosestPointsVisitor::new(&d, &pos12, &g1, &*g2, 1.0);
+                match vis.visit(best, &bv, None) {
+                    SimdBestFirstVisitStatus::MaybeContinue { weights, mask, .. } =>
+                        format!("{} {}", (0..4).map(|i| ff(weights.extract(i))).collect::<Vec<_>>().join(" "), fmask(mask)),
+                    _ => "exit".into(),
+                } }
+            "tv2_visit" => { let _aabb2 = aabb(a); let vel = d2::v(a); let mt = a.f(); let td = a.f(); let bv = simd(a); let pos12 = d2::iso(a); let s = super::comp2::sh(a);
+                let g2 = super::comp2::dynsh(&s);
+                let g1 = Compound::new(vec![(Isometry::identity(), SharedShape::new(Ball::new(0.5)))]);
+                let d = DefaultQueryDispatcher;
+                let opts = ShapeCastOptions { max_time_of_impact: mt, target_distance: td, stop_at_penetration: true, compute_impact_geometry_on_penetration: true };
+                let mut vis = TOICompositeShapeShapeBestFirstVisitor::new(&d, &pos12, &vel, &g1, &*g2, opts);
+                match vis.visit(f64::MAX, &bv, None) {
+                    SimdBestFirstVisitStatus::MaybeContinue { weights, mask, .. } =>
+                        (0..4).map(|i| format!("{} {}", b(mask.extract(i)), ff(weights.extract(i)))).collect::<Vec<_>>().join(" "),
+                    _ => "exit".into(),
+                } }
             _ => "nofn".into(),
         }
+    }
+    /// 2-D twin of `lanes3::gen_tv`
+    pub fn gen_tv(r: &mut Rng, thorough: bool) -> Vec<(String, String)> {
+        use crate::p2::bounding_volume::BoundingVolume;
+        let mut v = Vec::new();
+        let n = if thorough { 3000 } else { 400 };
+        for it in 0..n {
+            let lat = it % 2 == 0;
+            let s = if r.below(3) == 0 { let (p, q) = (d2::gen_p(r, lat, 2.0), d2::gen_p(r, lat, 2.0)); super::comp2::Sh2::Segment(p, q + Vector::new(0.25, 0.0)) } else { super::comp2::gen_other(r, lat) };
+            let pos12 = if r.below(4) == 0 { Isometry::identity() } else if lat && r.bool() { Isometry::translation(*r.pick(&[-2.0, 0.5, 3.0]), *r.pick(&[0.0, 1.25])) } else { d2::gen_iso(r, lat, 10.0) };
+            let g2 = super::comp2::dynsh(&s);
+            let ab = g2.compute_aabb(&pos12);
+            let xs: Vec<Aabb> = (0..4).map(|_| match r.below(5) { 0 => gen_box(r, lat), 1 => near_box(r, lat, &ab).merged(&gen_box(r, lat)), _ => near_box(r, lat, &ab) }).collect();
+            let x0 = xs[r.below(4) as usize];
+            let to = na::center(&x0.mins, &x0.maxs) - ab.center();
+            let k = r.below(2) as usize;
+            let vel = match r.below(5) { 0 => to * *r.pick(&[0.5, 1.0, 2.0]), 1 => -to, 2 => { let mut d = Vector::zeros(); d[k] = *r.pick(&[1.0, -1.0, 0.5]); d }, 3 => { let mut d = to; d[k] = 0.0; d }, _ => d2::gen_v(r, lat, 2.0) };
+            let mt = *r.pick(&[0.5, 1.0, 2.0, 4.0, 1.0e3]); let td = *r.pick(&[0.0, 0.0, 0.25]);
+            v.push(("tv2_visit".into(), format!("{} {} {} {} {} {} {}", haabb(&ab), d2::hv(&vel), hx(mt), hx(td), xs.iter().map(haabb).collect::<Vec<_>>().join(" "), d2::hiso(&pos12), super::comp2::hsh(&s))));
+        }
+        v
+    }
+    /// 2-D twin of `lanes3::gen_dv`
+    pub fn gen_dv(r: &mut Rng, thorough: bool) -> Vec<(String, String)> {
+        use crate::p2::bounding_volume::BoundingVolume;
+        let mut v = Vec::new();
+        let n = if thorough { 3000 } else { 400 };
+        for it in 0..n {
+            let lat = it % 2 == 0;
+            let s = if r.below(3) == 0 { let (p, q) = (d2::gen_p(r, lat, 2.0), d2::gen_p(r, lat, 2.0)); super::comp2::Sh2::Segment(p, q + Vector::new(0.25, 0.0)) } else { super::comp2::gen_other(r, lat) };
+            let pos12 = if r.below(4) == 0 { Isometry::identity() } else if lat && r.bool() { Isometry::translation(*r.pick(&[-2.0, 0.5, 3.0]), *r.pick(&[0.0, 1.25])) } else { d2::gen_iso(r, lat, 10.0) };
+            let g2 = super::comp2::dynsh(&s);
+            let ab = g2.compute_aabb(&pos12);
+            let xs: Vec<Aabb> = (0..4).map(|_| match r.below(5) { 0 => gen_box(r, lat), 1 => near_box(r, lat, &ab).merged(&gen_box(r, lat)), _ => near_box(r, lat, &ab) }).collect();
+            let gap = |x: &Aabb| -> f64 { (0..2).map(|k| { let g = (x.mins[k] - ab.maxs[k]).max(ab.mins[k] - x.maxs[k]).max(0.0); g * g }).sum::<f64>().sqrt() };
+            let best = match r.below(5) { 0 => f64::MAX, 1 => gap(&xs[r.below(4) as usize]), 2 => *r.pick(&[0.0, 0.25, 0.5, 1.0]), 3 => gap(&xs[0]) + *r.pick(&[-0.25, 0.25]), _ => r.uniform(0.0, 5.0) };
+            v.push(("dv2_visit".into(), format!("{} {} {} {} {}", haabb(&ab), hx(best), xs.iter().map(haabb).collect::<Vec<_>>().join(" "), d2::hiso(&pos12), super::comp2::hsh(&s))));
+        }
+        v
     }
 
     fn gen_box(r: &mut Rng, lat: bool) -> Aabb {
@@ -1394,6 +1579,195 @@ pub mod lanes2 {
             // the rotation part of `Isometry::new(linvel * t, angvel * t)` (the exponential map is not modelled) travels with the case
             let mm = Isometry::new(m.linvel * t, m.angvel * t);
             v.push(("nl2_pos".into(), format!("{} {} {}", hmotion(&m), hx(t), format!("{} {}", hx(mm.rotation.re), hx(mm.rotation.im)))));
+        }
+        v
+    }
+}
+
+/// the grid lookups of the 2-D heightfield (`hf2_*`): the real `HeightField::{cell_at_point,
+/// unclamped_elements_range_in_local_aabb, map_elements_in_local_aabb}`; wire format of a heightfield:
+/// `n h_0 … h_{n-1} s_0 … s_{n-2} scale.x scale.y` (`s_i = 1`: cell `i` present)
+pub mod hf2 {
+    use crate::util::*;
+    use crate::p2::bounding_volume::Aabb;
+    use crate::p2::na::DVector;
+    use crate::p2::shape::{HeightField, Segment, Shape};
+    use crate::p2::query::{ClosestPoints, Contact, DefaultQueryDispatcher, NonlinearRigidMotion, QueryDispatcher, ShapeCastHit, ShapeCastOptions, Unsupported};
+    use crate::p2::query::details::cast_shapes_heightfield_shape;
+    use crate::p2::bounding_volume::BoundingVolume;
+    use d2::{Isometry, Point, Vector};
+
+    pub struct Rec(pub std::sync::Mutex<Vec<Segment>>);
+    impl QueryDispatcher for Rec {
+        fn intersection_test(&self, p: &Isometry<f64>, g1: &dyn Shape, g2: &dyn Shape) -> Result<bool, Unsupported> { DefaultQueryDispatcher.intersection_test(p, g1, g2) }
+        fn distance(&self, p: &Isometry<f64>, g1: &dyn Shape, g2: &dyn Shape) -> Result<f64, Unsupported> { DefaultQueryDispatcher.distance(p, g1, g2) }
+        fn contact(&self, p: &Isometry<f64>, g1: &dyn Shape, g2: &dyn Shape, pr: f64) -> Result<Option<Contact>, Unsupported> { DefaultQueryDispatcher.contact(p, g1, g2, pr) }
+        fn closest_points(&self, p: &Isometry<f64>, g1: &dyn Shape, g2: &dyn Shape, m: f64) -> Result<ClosestPoints, Unsupported> { DefaultQueryDispatcher.closest_points(p, g1, g2, m) }
+        fn cast_shapes(&self, p: &Isometry<f64>, v: &Vector<f64>, g1: &dyn Shape, g2: &dyn Shape, o: ShapeCastOptions) -> Result<Option<ShapeCastHit>, Unsupported> {
+            if let Some(sg) = g1.as_segment() { self.0.lock().unwrap().push(*sg); }
+            DefaultQueryDispatcher.cast_shapes(p, v, g1, g2, o)
+        }
+        fn cast_shapes_nonlinear(&self, m1: &NonlinearRigidMotion, g1: &dyn Shape, m2: &NonlinearRigidMotion, g2: &dyn Shape, s: f64, e: f64, st: bool) -> Result<Option<ShapeCastHit>, Unsupported> {
+            DefaultQueryDispatcher.cast_shapes_nonlinear(m1, g1, m2, g2, s, e, st)
+        }
+    }
+    pub struct H { pub hs: Vec<f64>, pub st: Vec<bool>, pub sc: Vector<f64> }
+    pub fn h(a: &mut Args) -> H { let n = a.u(); let hs = (0..n).map(|_| a.f()).collect(); let st = (0..n - 1).map(|_| a.u() != 0).collect(); H { hs, st, sc: d2::v(a) } }
+    pub fn hh(x: &H) -> String { format!("{} {} {} {}", x.hs.len(), hxs(x.hs.iter()), x.st.iter().map(|s| if *s { "1" } else { "0" }).collect::<Vec<_>>().join(" "), d2::hv(&x.sc)) }
+    pub fn build(x: &H) -> HeightField {
+        let mut f = HeightField::new(DVector::from_vec(x.hs.clone()), x.sc);
+        for (i, s) in x.st.iter().enumerate() { if !*s { f.set_segment_removed(i, true); } }
+        f
+    }
+    pub fn exec(func: &str, a: &mut Args) -> String {
+        match func {
+            "hf2_cell" => { let x = h(a); let f = build(&x); let p = d2::p(a);
+                match f.cell_at_point(&p) { None => "none".into(), Some(i) => format!("some {}", i) } }
+            "hf2_range" => { let x = h(a); let f = build(&x); let b = Aabb::new(d2::p(a), d2::p(a));
+                let r = f.unclamped_elements_range_in_local_aabb(&b); format!("{} {}", r.start, r.end) }
+            // the cell walk of the 2-D cast_shapes_heightfield_shape, observed through a recording dispatcher that forwards
+            // every per-segment cast to the default dispatcher
+            "hf2_walk" => { let x = h(a); let f = build(&x); let _ab = Aabb::new(d2::p(a), d2::p(a)); let vel = d2::v(a); let mt = a.f();
+                let td = a.f(); let sp = a.u() != 0; let pos12 = d2::iso(a); let s = super::comp2::sh(a); let g2 = super::comp2::dynsh(&s);
+                let rec = Rec(std::sync::Mutex::new(Vec::new()));
+                let opts = ShapeCastOptions { max_time_of_impact: mt, target_distance: td, stop_at_penetration: sp, compute_impact_geometry_on_penetration: true };
+                let res = cast_shapes_heightfield_shape(&rec, &pos12, &vel, &f, &*g2, opts);
+                if res.is_err() { return "unsupported".into(); }
+                let segs = rec.0.lock().unwrap();
+                let ids: Vec<String> = segs.iter().map(|sg| match (0..f.num_cells()).find(|i| f.segment_at(*i).map(|t| t.a == sg.a && t.b == sg.b).unwrap_or(false)) { Some(i) => i.to_string(), None => "?".into() }).collect();
+                format!("ids {}", ids.join(" ")).trim_end().to_string() }
+            "hf2_elems" => { let x = h(a); let f = build(&x); let b = Aabb::new(d2::p(a), d2::p(a));
+                let mut ids = Vec::new(); f.map_elements_in_local_aabb(&b, &mut |i, _| ids.push(i.to_string()));
+                format!("ids {}", ids.join(" ")).trim_end().to_string() }
+            _ => "nofn".into(),
+        }
+    }
+    pub fn gen_h(r: &mut Rng, lat: bool) -> H {
+        let n = *r.pick(&[2usize, 2, 3, 4, 5, 6, 8, 9, 11, 17, 34]);
+        let zig = r.below(3) == 0;
+        let hs: Vec<f64> = (0..n).map(|i| if zig { if i % 2 == 0 { 0.0 } else { *r.pick(&[1.0, -1.0, 0.5]) } } else if lat { *r.pick(&[0.0, 0.25, 0.5, 1.0, -0.5, 2.0]) } else { r.uniform(-2.0, 2.0) }).collect();
+        let st = (0..n - 1).map(|_| r.below(6) != 0).collect();
+        let sx = if lat { *r.pick(&[1.0, 2.0, 4.0, 0.5, 3.0, 10.0, 7.0]) } else { *r.pick(&[0.01, 0.37, 1.3, 17.0, 100.0]) * r.uniform(1.0, 1.5).min(100.0 / 1.5) };
+        let sy = if lat { *r.pick(&[1.0, 2.0, 0.5]) } else { r.uniform(0.05, 5.0) };
+        H { hs, st, sc: Vector::new(sx.min(100.0), sy) }
+    }
+    /// an abscissa on / next to a cell boundary (computed as the code computes vertex abscissae, or exactly), on the
+    /// border, outside, anywhere
+    fn gen_x(r: &mut Rng, x: &H, f: &HeightField) -> f64 {
+        let n = x.hs.len() - 1; let i = r.below(n as u64 + 1) as f64;
+        let vx = f.start_x() + f.cell_width() * i;
+        let ex = x.sc.x * (-0.5 + i / n as f64);
+        match r.below(8) {
+            0 => vx, 1 => ex, 2 => if vx == 0.0 { 1.0e-300 } else { f64::from_bits(vx.to_bits() + 1) }, 3 => if vx == 0.0 { -1.0e-300 } else { f64::from_bits(vx.to_bits() - 1) },
+            4 => vx + *r.pick(&[0.25, -0.25, 0.001]) * f.cell_width(),
+            5 => *r.pick(&[-0.5, 0.5, -0.75, 0.75, -10.0, 10.0]) * x.sc.x,
+            6 => r.uniform(-0.7, 0.7) * x.sc.x,
+            _ => vx + 0.5 * f.cell_width(),
+        }
+    }
+    pub fn gen(r: &mut Rng, thorough: bool) -> Vec<(String, String)> {
+        let mut v = Vec::new();
+        let n = if thorough { 4000 } else { 500 };
+        for it in 0..n {
+            let lat = it % 2 == 0;
+            let x = gen_h(r, lat); let f = build(&x); let s = hh(&x);
+            let p = Point::new(gen_x(r, &x, &f), *r.pick(&[0.0, 1.0, -3.0]));
+            v.push(("hf2_cell".into(), format!("{} {}", s, d2::hp(&p))));
+            // boxes: edges on cell boundaries, zero width, spanning everything, outside, touching the border; ordinates above /
+            // below / touching the heights of the cells
+            let (mut x0, mut x1) = (gen_x(r, &x, &f), gen_x(r, &x, &f));
+            if r.below(8) == 0 { x1 = x0; }
+            if x0 > x1 { std::mem::swap(&mut x0, &mut x1); }
+            let hy = x.hs[r.below(x.hs.len() as u64) as usize] * x.sc.y;
+            let (y0, y1) = match r.below(5) { 0 => (hy, hy + 1.0), 1 => (hy - 1.0, hy), 2 => (-100.0, 100.0), 3 => (hy + 0.25, hy + 0.5), _ => { let a = r.uniform(-3.0, 3.0); (a, a + r.uniform(0.0, 2.0)) } };
+            let b = format!("{} {} {} {}", hx(x0), hx(y0), hx(x1), hx(y1));
+            v.push(("hf2_range".into(), format!("{} {}", s, b)));
+            v.push(("hf2_elems".into(), format!("{} {}", s, b)));
+            // cell walk: a small shape somewhere above / left / right of the heightfield moving mostly sideways (both ways),
+            // straight down, or barely sideways; time limits that stop the walk early or never
+            let sh = match r.below(4) { 0 => super::comp2::Sh2::Ball(*r.pick(&[0.25, 0.5, 1.0])), 1 => super::comp2::Sh2::Cuboid(Vector::new(*r.pick(&[0.1, 0.5, 2.0]), 0.25)),
+                2 => super::comp2::Sh2::Segment(Point::new(0.5, 0.0), Point::new(1.5, 0.25)), _ => super::comp2::gen_other(r, lat) };
+            let px = match r.below(4) { 0 => *r.pick(&[-0.5, 0.5]) * x.sc.x, 1 => *r.pick(&[-0.75, 0.75, -2.0, 2.0]) * x.sc.x, _ => gen_x(r, &x, &f) };
+            let py = *r.pick(&[0.0, 1.0, 3.0, -1.0]) * x.sc.y;
+            let pos12 = if lat || r.bool() { Isometry::translation(px, py) } else { Isometry::new(Vector::new(px, py), r.uniform(-3.0, 3.0)) };
+            let vel = match r.below(6) { 0 => Vector::new(0.0, -1.0), 1 => Vector::new(*r.pick(&[1.0, -1.0, 2.0, -0.5]), 0.0), 2 => Vector::new(*r.pick(&[1.0e-3, -1.0e-3]), -1.0),
+                _ => Vector::new(*r.pick(&[1.0, -1.0, 3.0, -3.0]) * if lat { 1.0 } else { r.uniform(0.2, 1.5) }, *r.pick(&[0.0, -0.25, -1.0, 0.5])) };
+            let mt = *r.pick(&[0.5, 1.0, 2.0, 10.0, 1.0e3, f64::MAX]) * if r.below(4) == 0 { x.sc.x } else { 1.0 };
+            let td = *r.pick(&[0.0, 0.0, 0.25]); let sp = r.bool();
+            let g2 = super::comp2::dynsh(&sh);
+            let ab = g2.compute_aabb(&pos12).loosened(td);
+            v.push(("hf2_walk".into(), format!("{} {} {} {} {} {} {} {} {}", s, d2::hp(&ab.mins), d2::hp(&ab.maxs), d2::hv(&vel), hx(mt), hx(td), sp as u8, d2::hiso(&pos12), super::comp2::hsh(&sh))));
+        }
+        v
+    }
+}
+
+/// the grid lookups of the 3-D heightfield (`hf3_*`): the real `HeightField::{cell_at_point,
+/// unclamped_elements_range_in_local_aabb, map_elements_in_local_aabb}`; wire format:
+/// `nr nc h[nr*nc] (column-major) st[(nr-1)*(nc-1)] (column-major flag bits) scale.x scale.y scale.z`
+pub mod hf3 {
+    use crate::util::*;
+    use crate::p3::bounding_volume::Aabb;
+    use crate::p3::na::DMatrix;
+    use crate::p3::shape::{HeightField, HeightFieldCellStatus};
+    use d3::{Point, Vector};
+
+    pub struct H { pub nr: usize, pub nc: usize, pub hs: Vec<f64>, pub st: Vec<u8>, pub sc: Vector<f64> }
+    pub fn h(a: &mut Args) -> H { let nr = a.u(); let nc = a.u(); let hs = (0..nr * nc).map(|_| a.f()).collect(); let st = (0..(nr - 1) * (nc - 1)).map(|_| a.u() as u8).collect(); H { nr, nc, hs, st, sc: d3::v(a) } }
+    pub fn hh(x: &H) -> String { format!("{} {} {} {} {}", x.nr, x.nc, hxs(x.hs.iter()), x.st.iter().map(|s| s.to_string()).collect::<Vec<_>>().join(" "), d3::hv(&x.sc)) }
+    pub fn build(x: &H) -> HeightField {
+        let mut f = HeightField::new(DMatrix::from_column_slice(x.nr, x.nc, &x.hs), x.sc);
+        for j in 0..x.nc - 1 { for i in 0..x.nr - 1 { f.set_cell_status(i, j, HeightFieldCellStatus::from_bits_truncate(x.st[i + j * (x.nr - 1)])); } }
+        f
+    }
+    pub fn exec(func: &str, a: &mut Args) -> String {
+        match func {
+            "hf3_cell" => { let x = h(a); let f = build(&x); let p = d3::p(a);
+                match f.cell_at_point(&p) { None => "none".into(), Some((i, j)) => format!("some {} {}", i, j) } }
+            "hf3_range" => { let x = h(a); let f = build(&x); let b = Aabb::new(d3::p(a), d3::p(a));
+                let (ri, rj) = f.unclamped_elements_range_in_local_aabb(&b); format!("{} {} {} {}", ri.start, ri.end, rj.start, rj.end) }
+            "hf3_elems" => { let x = h(a); let f = build(&x); let b = Aabb::new(d3::p(a), d3::p(a));
+                let mut ids = Vec::new(); f.map_elements_in_local_aabb(&b, &mut |i, _| ids.push(i.to_string()));
+                format!("ids {}", ids.join(" ")).trim_end().to_string() }
+            _ => "nofn".into(),
+        }
+    }
+    pub fn gen_h(r: &mut Rng, lat: bool) -> H {
+        let nr = *r.pick(&[2usize, 2, 3, 4, 5, 6, 9]); let nc = *r.pick(&[2usize, 3, 3, 4, 5, 7, 10]);
+        let hs: Vec<f64> = (0..nr * nc).map(|_| if lat { *r.pick(&[0.0, 0.25, 0.5, 1.0, -0.5, 2.0]) } else { r.uniform(-2.0, 2.0) }).collect();
+        let st = (0..(nr - 1) * (nc - 1)).map(|_| *r.pick(&[0u8, 0, 0, 1, 1, 2, 4, 6, 3, 5])).collect();
+        let sc = if lat { Vector::new(*r.pick(&[1.0, 2.0, 4.0, 0.5, 3.0, 10.0, 7.0]), *r.pick(&[1.0, 2.0, 0.5]), *r.pick(&[1.0, 2.0, 4.0, 6.0, 0.25])) }
+                 else { Vector::new(r.uniform(0.05, 50.0), r.uniform(0.05, 5.0), r.uniform(0.05, 50.0)) };
+        H { nr, nc, hs, st, sc }
+    }
+    /// an abscissa on / beside a grid line of an axis with `n` cells and scale `s`, on the border, outside, anywhere
+    fn gen_c(r: &mut Rng, n: usize, s: f64) -> f64 {
+        let i = r.below(n as u64 + 1) as f64;
+        let w = 1.0 / ((n + 1) as f64 - 1.0);
+        let vx = (-0.5 + w * i) * s;
+        match r.below(8) {
+            0 => vx, 1 => s * (-0.5 + i / n as f64), 2 => if vx == 0.0 { 1.0e-300 } else { f64::from_bits(vx.to_bits() + 1) }, 3 => if vx == 0.0 { -1.0e-300 } else { f64::from_bits(vx.to_bits() - 1) },
+            4 => vx + *r.pick(&[0.25, -0.25, 0.001]) * w * s,
+            5 => *r.pick(&[-0.5, 0.5, -0.75, 0.75, -10.0, 10.0]) * s,
+            6 => r.uniform(-0.7, 0.7) * s,
+            _ => vx + 0.5 * w * s,
+        }
+    }
+    pub fn gen(r: &mut Rng, thorough: bool) -> Vec<(String, String)> {
+        let mut v = Vec::new();
+        let n = if thorough { 4000 } else { 500 };
+        for it in 0..n {
+            let lat = it % 2 == 0;
+            let x = gen_h(r, lat); let s = hh(&x);
+            let p = Point::new(gen_c(r, x.nc - 1, x.sc.x), *r.pick(&[0.0, 1.0]), gen_c(r, x.nr - 1, x.sc.z));
+            v.push(("hf3_cell".into(), format!("{} {}", s, d3::hp(&p))));
+            let (mut x0, mut x1) = (gen_c(r, x.nc - 1, x.sc.x), gen_c(r, x.nc - 1, x.sc.x)); if r.below(8) == 0 { x1 = x0; } if x0 > x1 { std::mem::swap(&mut x0, &mut x1); }
+            let (mut z0, mut z1) = (gen_c(r, x.nr - 1, x.sc.z), gen_c(r, x.nr - 1, x.sc.z)); if r.below(8) == 0 { z1 = z0; } if z0 > z1 { std::mem::swap(&mut z0, &mut z1); }
+            let hy = x.hs[r.below(x.hs.len() as u64) as usize] * x.sc.y;
+            let (y0, y1) = match r.below(5) { 0 => (hy, hy + 1.0), 1 => (hy - 1.0, hy), 2 => (-100.0, 100.0), 3 => (hy + 0.25, hy + 0.5), _ => { let a = r.uniform(-3.0, 3.0); (a, a + r.uniform(0.0, 2.0)) } };
+            let b = format!("{} {} {} {} {} {}", hx(x0), hx(y0), hx(z0), hx(x1), hx(y1), hx(z1));
+            v.push(("hf3_range".into(), format!("{} {}", s, b)));
+            v.push(("hf3_elems".into(), format!("{} {}", s, b)));
         }
         v
     }
